@@ -128,13 +128,28 @@ def run(ctx):
     rets = [p for p in rm.paths if p.kind == "return"]
     ok, why = bool(rets), "no returning path"
 
-    def readof(suffix):
-        return CallT("method:read", [CallT("builtin:open", [("binop", "+", name, C(suffix)), C("rb")])])
+    def is_read_of(t, suffix):
+        """t == open(name + suffix, <binary read mode>).read()"""
+        if not (is_call(t, "method:read") and len(t[2]) == 1 and is_call(t[2][0], "builtin:open")):
+            return False
+        h = t[2][0]
+        path = h[2][0] if h[2] else dict(h[3]).get("file")
+        mode = h[2][1] if len(h[2]) > 1 else dict(h[3]).get("mode")
+        return path == ("binop", "+", name, C(suffix)) and mode is not None and is_const(mode) and "b" in str(mode[2]) and "r" in str(mode[2]) and "+" not in str(mode[2])
 
     for p in rets:
         v = eng.expand(p.value)
-        want = ("lit", "tuple", (CallT(FROM[PRIV], [readof(".pri")]), CallT(FROM[PUB], [readof(".pub")])), None)
-        if v != want:
+        good = (
+            is_lit(v, "tuple")
+            and len(v[2]) == 2
+            and is_call(v[2][0], FROM[PRIV])
+            and is_call(v[2][1], FROM[PUB])
+            and len(v[2][0][2]) == 1
+            and len(v[2][1][2]) == 1
+            and is_read_of(v[2][0][2][0], ".pri")
+            and is_read_of(v[2][1][2][0], ".pub")
+        )
+        if not good:
             ok, why = False, "returns %s" % show(v)[:160]
     ctx.ob("R2", "keyfile-reader", fn_site(eng, rm).loc(), "keyfiles_to_keys " + ("reads name.pri / name.pub in binary mode into PrivateKey.from_bytes / PublicKey.from_bytes, in that order" if ok else "does not mirror the writer: " + why), ok)
 
@@ -174,8 +189,14 @@ def run(ctx):
     rets = [p for p in ck.paths if p.kind == "return"]
     want = {"obj:cryptography.hazmat.primitives.asymmetric.ed25519.Ed25519PublicKey", "obj:cryptography.hazmat.primitives.asymmetric.ed25519.Ed25519PrivateKey"}
     ok = bool(rets)
+    union = set()
     for p in rets:
         ts = State(facts=p.facts).types(kx)
-        if ts is None or not (want <= ts and all("Ed25519P" in t or t.startswith("obj:common.P") for t in ts)):
+        if ts is None or not all("Ed25519P" in t or t.startswith("obj:common.P") for t in ts):
             ok = False
+        else:
+            union |= ts
+    ok = ok and want <= union
+    rejects = [p for p in ck.paths if p.kind == "raise"]
+    ok = ok and bool(rejects) and all(eng.prog.exc_is_sub(p.value.exc, "TypeError") for p in rejects)
     ctx.ob("R4", "key-gate", fn_site(eng, ck).loc(), "checkformat_key %s" % ("accepts exactly instances of the two Ed25519 key classes" if ok else "is not the isinstance gate over both Ed25519 key classes"), ok)
